@@ -510,6 +510,13 @@ def flush_geom_violations():
         report(geom, False, ops, key, what, True)
 
 
+import fractions as _fr
+# (bool is left out on purpose: `True` indexes the tuple of interface indices as 1 but numpy arrays as a mask, so
+#  even a FRESH object answers leg_points(True) with something else than leg_points(1); nobody's interface index)
+ODD_SPELLINGS = [1.0, np.float64(2.0), -1.0, np.int64(1), np.int32(2), _fr.Fraction(1), 0.0, np.float32(1.0), np.int8(-1)]
+_probe_count = 0
+
+
 def run_history(geom, ops, uc=True, deep=True, last_only=False):
     flush_geom_violations()
     global evaluations
@@ -521,6 +528,25 @@ def run_history(geom, ops, uc=True, deep=True, last_only=False):
         r.step(op)
     if not deep:
         r.check_cache_inv()
+    # other spellings of an interface index (floats equal to an integer, numpy scalars, bool, Fraction) on the object
+    # as the history left it: the outcome (value, or the kind of error) must be that of a fresh uncached object
+    global _probe_count
+    _probe_count += 1
+    if _probe_count % 23 == 0:
+        fresh_o = geom.rg(use_cache=False)
+        for sp in ODD_SPELLINGS[(_probe_count // 23) % 3::3]:
+            for m in (METHS[(_probe_count // 23 + j) % len(METHS)] for j in (0, 5, 11)):
+                def outcome(o_):
+                    try:
+                        v_ = getattr(o_, m)(sp)
+                    except Exception as e_:  # noqa: BLE001
+                        return ("raises", type(e_).__name__)
+                    return ("value", "None" if v_ is None else ahash(v_))
+                got_, want_ = outcome(r.rg), outcome(fresh_o)
+                evaluations += 1
+                if got_ != want_:
+                    r.bad.append(("transparent:index-spelling", f"{m}({sp!r}) after this history: {got_}; a fresh uncached object: {want_}", True))
+        chk.count(index_spelling_probe=1)
     for (key, what, found) in r.bad:
         report(geom, uc, ops, key, what, found)
     evaluations += len(r.entries)
